@@ -116,6 +116,12 @@ struct FnSpec {
     tail_from: String,
     #[serde(default)]
     tail_call: String,
+    /// R15 call-out for a nested block: the inner text of the block whose first statement starts with
+    /// `block_call_from` is replaced by `block_call` (a call of its lifted twin, verified from the same bytes)
+    #[serde(default)]
+    block_call_from: String,
+    #[serde(default)]
+    block_call: String,
 }
 
 #[derive(Deserialize, Clone)]
@@ -511,6 +517,7 @@ struct Rw<'a> {
     closure_pat_seen: HashMap<String, usize>,
     quote_idx: usize,
     pre_items: String,
+    block_call_done: bool,
 }
 
 impl<'a> Rw<'a> {
@@ -1280,6 +1287,22 @@ impl<'a, 'ast> Visit<'ast> for Rw<'a> {
         });
     }
 
+    fn visit_block(&mut self, b: &'ast syn::Block) {
+        if !self.spec.block_call_from.is_empty() && !self.block_call_done {
+            if let Some(st) = b.stmts.first() {
+                let (ss, _) = br(st.span());
+                if self.src[ss..].starts_with(self.spec.block_call_from.as_str()) {
+                    let (_, be) = br(b.span());
+                    let call = self.spec.block_call.clone();
+                    self.replace_range(ss, be - 1, format!("{}\n", call), "R15-call-out");
+                    self.block_call_done = true;
+                    return;
+                }
+            }
+        }
+        syn::visit::visit_block(self, b);
+    }
+
     fn visit_expr_macro(&mut self, m: &'ast syn::ExprMacro) {
         for a in &m.attrs {
             self.visit_attribute(a);
@@ -1813,6 +1836,7 @@ fn extract_fn(
         closure_pat_seen: HashMap::new(),
         quote_idx: 0,
         pre_items: String::new(),
+        block_call_done: false,
     };
     let (_, wend) = br(whole);
     let (sig_s, sig_e) = br(sig.span());
@@ -1985,6 +2009,9 @@ fn extract_fn(
             } else {
                 rw.visit_stmt(st);
             }
+        }
+        if !spec.block_call_from.is_empty() && !rw.block_call_done {
+            rw.errors.push(format!("lost anchor: no block of {} starts with `{}`", item_label, spec.block_call_from));
         }
         // body prologue / proof prologue right after `{`
         let mut pro = String::new();
